@@ -165,7 +165,65 @@ def unknown_sweep(ctx):
             oracle(ctx, '%s a, b from t' % w.lower(), 'UNKNOWN')
 
 
+
+def scale_sweep(ctx):
+    """the property has no size bound: the same statements behind LONG prefixes (runs of 101 … 5000 whitespace tokens of every kind, hundreds of
+    comments — separate groups, one merged group, hints), in front of long continuations, and WITH statements with hundreds of definitions /
+    long and deeply nested definition bodies"""
+    stmts = [('select a from t', 'SELECT'), ('Insert into t values (1)', 'INSERT'), ('create  or\nreplace view v as select 1', 'CREATE OR REPLACE'),
+             ('drop table t', 'DROP'), ('with c as (select 1) select * from c', 'SELECT'), ('foo bar', 'UNKNOWN')]
+    prefixes = []
+    for n in (101, 1000, 5000):
+        prefixes += [' ' * n, '\n' * n, '\t \r\n' * (n // 4 + 1)]
+    for n in (60, 150, 700):
+        prefixes += ['/* c */ ' * n, '-- c\n' * n, '-- c\n \n' * n, '/*+ h */\n' * n, '/* c */' * n + ' ']
+    for st, want in stmts:
+        for pre in prefixes:
+            oracle(ctx, pre + st, want)
+    tails = [' ,' + ', '.join('c%d' % i for i in range(3000)), ' ' + ' + '.join('x%d' % i for i in range(150)), ' ' + '(' * 60 + 'select 1' + ')' * 60,
+             '; ' + '; '.join('update t%d set a = 1' % i for i in range(300))]
+    for lead, want in [('select a', 'SELECT'), ('delete from t where x in (1)', 'DELETE'), ('alter table t add c int', 'ALTER'), ('foo bar', 'UNKNOWN')]:
+        for tail in tails:
+            oracle(ctx, lead + tail, want)
+    for n in (2, 40, 300):
+        ctes = ', '.join('c%d AS (SELECT %d)' % (i, i) for i in range(n))
+        for dml, want in [('SELECT * FROM c0', 'SELECT'), ('insert into t select * from c1', 'INSERT'), ('UPDATE t SET a = 1', 'UPDATE'), ('delete from t', 'DELETE')]:
+            oracle(ctx, 'WITH ' + ctes + ' ' + dml, want)
+            oracle(ctx, ' ' * 150 + 'with recursive ' + ctes + '\n' * 120 + dml, want)
+    body = 'SELECT ' + ', '.join('c%d' % i for i in range(2500)) + ' FROM t'
+    oracle(ctx, 'WITH big AS (' + body + ') SELECT 1 FROM big', 'SELECT')
+    oracle(ctx, 'WITH deep AS (' + '(' * 50 + 'select 1' + ')' * 50 + ') DELETE FROM deep', 'DELETE')
+    ctx.count('scale sweep')
+
+
+
+def far_continuation_sweep(ctx):
+    """'…and everything after the leading keyword': every dictionary word (and clause-like pieces) FAR behind the leading keyword — after a filler
+    of 25 list items / a where clause — at the top level of the statement and inside a parenthesis"""
+    ndict = len(all_dictionary_words())
+    words = all_dictionary_words() + ['INTO', 'RETURNING', 'ON CONFLICT', 'UNION ALL', 'FOR UPDATE', 'OR REPLACE', 'IF EXISTS', 'AS SELECT']
+    leads = [('select x0', 'SELECT'), ('insert into t0 select x0', 'INSERT'), ('update t0 set y = 1, x0 = 2', 'UPDATE'), ('delete from t0 where k in (x0', 'DELETE'),
+             ('create table t0 as select x0', 'CREATE'), ('drop table t0, x0', 'DROP'), ('with c as (select 1) select x0', 'SELECT'), ('truncate x0', 'TRUNCATE')]
+    if ctx.quick():
+        leads = [leads[(ctx.seed + i) % len(leads)] for i in range(3)]
+    filler = ', ' + ', '.join('c%d' % i for i in range(25))
+    joins = ''.join(' join t%d on a%d = b%d' % (i, i, i) for i in range(12))
+    for lead, want in leads:
+        close = ')' if '(x0' in lead else ''
+        for i, w in enumerate(words):
+            w = w.lower() if i % 2 else w
+            oracle(ctx, '%s%s %s y%s' % (lead, filler, w, close), want)
+            if i % 3 == 0:
+                oracle(ctx, '%s%s, (z %s y)%s' % (lead, filler, w, close), want)
+            if 'select x0' in lead and (not ctx.quick() or i % 2 == ctx.seed % 2 or i >= ndict):
+                # many TOP-LEVEL children between the leading keyword and the word (a join chain is not wrapped into one group)
+                oracle(ctx, '%s from t%s %s y' % (lead, joins, w), want)
+    ctx.count('far continuation sweep')
+
+
 def run(ctx):
+    scale_sweep(ctx)
+    far_continuation_sweep(ctx)
     punctuation_sweep(ctx)
     unknown_sweep(ctx)
     continuation_sweep(ctx)
